@@ -1,7 +1,7 @@
-\* quick: all base meshes, one refinement of line / rect / tri, all geometry maps, a subset of the fields
+\* quick: all base meshes but prodm, one refinement of line / tri (tet: for the boundary fields only), all geometry maps, a subset of the fields
 SPECIFICATION Spec
 CONSTANTS
-  MeshNames = {"line", "rect", "tri", "prod", "box", "tet"}
+  MeshNames = {"line", "rect", "tri", "prod", "box", "tet", "prod3"}
   RefineOn = {"line", "tri"}
   MaxLevel = 1
   GeomIds = {1, 2, 3, 4, 5, 6, 7, 8, 9, 10, 11, 12, 13, 14, 15, 16, 17, 18, 19, 20, 21}
@@ -9,6 +9,9 @@ CONSTANTS
   Lattice = 2
   Lattice3 = 1
   IntegrateOn = {"line", "rect", "tri", "tet"}
+  BFieldOn = {"tri", "box", "tet"}
+  RefineOnB = {"tet"}
+  ProdGeomIds = {22}
   GmMutant = "none"
 INVARIANT TypeOK
 INVARIANT GradIsDerivative
@@ -24,5 +27,8 @@ INVARIANT DivTheoremElem
 INVARIANT DivTheoremMesh
 INVARIANT VolumePositive
 INVARIANT PerSpace
+INVARIANT ProductGradient
+INVARIANT BoundaryFieldTangential
+INVARIANT BoundarySurfGrad
 INVARIANT EmitEval
 PROPERTY RefinePreserves
